@@ -223,6 +223,8 @@ func init() {
 		"(net/http.Header).Set": noop,
 		"(net/http.Header).Del": noop,
 		"(net/http.Header).Get": func(fr *frame, args []value) value { return "" },
+		// diagnostic rendering of tickets (error messages, test strings)
+		"(*github.com/yorkie-team/yorkie/pkg/document/time.Ticket).ToTestString": func(fr *frame, args []value) value { return "<ticket>" },
 		"time.Now":   ext۰time۰Now,
 		"time.Since": ext۰time۰Since,
 		"google.golang.org/protobuf/proto.Marshal":   ext۰proto۰Marshal,
